@@ -22,3 +22,5 @@ pub fn quoted_string(s: &str) -> String {
 pub fn unescaped_quoted_string(input: &str) -> Option<(String, String)> {
     crate::parser::verif_unescaped_quoted_string(input)
 }
+
+// Per-property hook modules (one `pub mod cxx;` line each, add-only).
